@@ -243,6 +243,9 @@ def check_main(prop, argv):
         # confirm in a fresh simulator process
         again = prop.replay(ctx, v["replay"])
         if not any(a["key"] == key for a in again):
+            if v["class"] in getattr(prop, "noisy_classes", ()):
+                print(f"[{prop.id}] note: {key} (case seed {v['case_seed']}) did not show again on replay: measurement noise, dropped")
+                continue
             print(f"HARNESS-ERROR: violation {key} (case seed {v['case_seed']}) did not reproduce on replay")
             unconfirmed += 1
             continue
